@@ -798,7 +798,7 @@ func TestCheck(t *testing.T) {
 	} else {
 		add("mutate", w.mutateConfigs(validScopes, d1, false), mutIdx, true)
 	}
-	nDeep, nMulti := ev.Pick(4000, 40000), ev.Pick(1000, 6000)
+	nDeep, nMulti := ev.Pick(4000, 160000), ev.Pick(1000, 24000)
 	jobs = append(jobs, job{gen: func(i int) sconfig { return w.deepConfig(i, atoms) }, n: nDeep, chains: allIdx, name: "deep"})
 	jobs = append(jobs, job{gen: func(i int) sconfig { return w.multiConfig(i, validScopes, d1, d2) }, n: nMulti, chains: allIdx, name: "multi"})
 
